@@ -243,6 +243,9 @@ int main(int argc, char** argv) {
         {"Q4:prod x3,try_pop x3,max=3", 1, 3, 3, {}, false, 3},
         {"Q4:prod x2,try_pop x2 + cons x1,max=1", 1, 2, 1, {1}, false, 1},
         {"Q5:2 cons blocked,shutdown", 0, 0, 0, {1, 1}, true, 0},
+        // bounds >= 3: the queue can be "more than half full and not full" (decisions taken from a size() snapshot, seed C19e)
+        {"Q6:1prod x3,1 cons,max=3", 1, 3, 3, {3}, false, 0},
+        {"Q6:1prod x4,1 cons,max=4", 1, 4, 4, {4}, false, 0},
         // small configurations mirrored by the Promela model (engine/spin/queue.pml, checks/C19/spin.py): all their model paths are replayed here
         {"M1:1 cons blocked,shutdown", 0, 0, 0, {1}, true, 0},
         {"M2:prod x1,cons x1,unbounded", 1, 1, 0, {1}, false, 0},
